@@ -187,7 +187,32 @@ impl C07 {
             what.push(format!("raw{n}"));
         } else {
             for _ in 0..1 + src.below(3) {
-                match src.below(7) {
+                match src.below(8) {
+                    7 => {
+                        // more well-formed entries than the 32 a token can hold (also exactly 32, and NONE entries among them)
+                        if w.len() >= OFF_COUNT + 4 + 64 {
+                            let k = src.pick(&[33u32, 32, 34, 40, 64, 300]);
+                            let nones = src.chance(64);
+                            let keys = w[w.len() - 64..].to_vec();
+                            w.truncate(OFF_COUNT);
+                            w.extend_from_slice(&k.to_le_bytes());
+                            for j in 0..k {
+                                if nones && j % 5 == 1 {
+                                    w.push(0);
+                                } else if j % 3 == 2 {
+                                    w.push(2);
+                                    w.extend_from_slice(&[0xfd, 0, 0, 0, 0, 0, 0, 0, 0, 0, 0, 0, 0, 0, (j >> 8) as u8, j as u8]);
+                                    w.extend_from_slice(&(7000 + j as u16).to_le_bytes());
+                                } else {
+                                    w.push(1);
+                                    w.extend_from_slice(&[10, 1, (j >> 8) as u8, j as u8]);
+                                    w.extend_from_slice(&(7000 + j as u16).to_le_bytes());
+                                }
+                            }
+                            w.extend_from_slice(&keys);
+                            what.push(format!("entries={k},nones={nones}"));
+                        }
+                    }
                     0 => {
                         let c = src.pick(&[0u32, 1, 2, 32, 33, 255, u32::MAX]);
                         w[OFF_COUNT..OFF_COUNT + 4].copy_from_slice(&c.to_le_bytes());
@@ -243,6 +268,9 @@ impl C07 {
             }
         }
         ctx.op(&what);
+        if what.iter().any(|w| w.starts_with("entries=")) {
+            ctx.label("token_many_entries");
+        }
         ctx.label("token_case");
         let parsed = ConnectToken::read(&mut std::io::Cursor::new(&w));
         if let Ok(t) = parsed {
@@ -439,7 +467,7 @@ impl Property for C07 {
         "exploration"
     }
     fn rule(&self) -> String {
-        "Floods (enumerated): every target endpoint is handed all 256 prefix bytes twice in a row at each length class, 512 hostile datagrams with nothing genuine in between, under the same per-datagram oracles, then genuine traffic must still work. A case stages a secure server holding every protocol state at once (unknown address, pending address, connected victim, connected bystander; clients requesting, responding, connected, disconnected) and presents non-authentic datagrams to the server from every source-address class and to every client: mutations (bit flips in prefix / sequence / body / tag, truncations, extensions, prefix replacement) of genuine datagrams of any session and direction, genuine datagrams replayed or presented at the wrong endpoint, well-formed prefixes with boundary lengths and all-zero / all-ff sequence bytes, random bytes 0..1400; silence is interleaved so a refreshed timer shows. Enumerated: all 256 prefix bytes x 13 boundary lengths x 2 fills x 7 targets; every single-bit flip and every truncation of eight fresh genuine datagrams (payload, keep-alive, response, challenge, request; both directions) presented to the live endpoint they were meant for. Tokens: raw bytes and field-wise mutations of valid serialisations (address count 0/33/2^32-1, type tags 0/1/2/3/255, expire < create, zero/negative timeouts, truncations) through ConnectToken::read -> NetcodeClient::new -> update / process_packet / generate_payload_packet / disconnect. Oracles: no call unwinds (overflow checks on); a non-authentic datagram (by provenance) yields neither Payload nor ClientConnected nor ClientDisconnected, client process_packet returns None, and the snapshot of clients_id / connected_clients / per-client addr, user data, connectedness and time_since_last_received_packet (server) and connected / connecting / reason / time_since_last_received_packet / server_addr (every client) is unchanged; afterwards a genuine payload still surfaces in both directions and the pending client completes its handshake. Non-trivial: a datagram of >= 18 bytes presented from a known address or to a client past the request state (reaches the keyed decode path), or a mutated token that parses. Distinct = hash of the decoded case.".into()
+        "Floods (enumerated): every target endpoint is handed all 256 prefix bytes twice in a row at each length class, 512 hostile datagrams with nothing genuine in between, under the same per-datagram oracles, then genuine traffic must still work. A case stages a secure server holding every protocol state at once (unknown address, pending address, connected victim, connected bystander; clients requesting, responding, connected, disconnected) and presents non-authentic datagrams to the server from every source-address class and to every client: mutations (bit flips in prefix / sequence / body / tag, truncations, extensions, prefix replacement) of genuine datagrams of any session and direction, genuine datagrams replayed or presented at the wrong endpoint, well-formed prefixes with boundary lengths and all-zero / all-ff sequence bytes, random bytes 0..1400; silence is interleaved so a refreshed timer shows. Enumerated: all 256 prefix bytes x 13 boundary lengths x 2 fills x 7 targets; every single-bit flip and every truncation of eight fresh genuine datagrams (payload, keep-alive, response, challenge, request; both directions) presented to the live endpoint they were meant for. Tokens: raw bytes and field-wise mutations of valid serialisations (address count 0/33/2^32-1, 32..300 well-formed entries with and without NONE entries, type tags 0/1/2/3/255, expire < create, zero/negative timeouts, truncations) through ConnectToken::read -> NetcodeClient::new -> update / process_packet / generate_payload_packet / disconnect. Oracles: no call unwinds (overflow checks on); a non-authentic datagram (by provenance) yields neither Payload nor ClientConnected nor ClientDisconnected, client process_packet returns None, and the snapshot of clients_id / connected_clients / per-client addr, user data, connectedness and time_since_last_received_packet (server) and connected / connecting / reason / time_since_last_received_packet / server_addr (every client) is unchanged; afterwards a genuine payload still surfaces in both directions and the pending client completes its handshake. Non-trivial: a datagram of >= 18 bytes presented from a known address or to a client past the request state (reaches the keyed decode path), or a mutated token that parses. Distinct = hash of the decoded case.".into()
     }
     fn assumptions(&self) -> Vec<String> {
         vec![
@@ -451,7 +479,7 @@ impl Property for C07 {
         PbtCfg { cases: tier.pick(150_000, 3_000_000), max_len: tier.pick(600, 1800), shrink_ms: 120_000 }
     }
     fn required_labels(&self) -> Vec<&'static str> {
-        vec!["keyed_path", "at_unknown", "at_pending", "at_connected", "at_client", "token_case", "token_parsed", "flood"]
+        vec!["keyed_path", "at_unknown", "at_pending", "at_connected", "at_client", "token_case", "token_parsed", "token_many_entries", "flood"]
     }
     fn enums(&self, _tier: Tier) -> Vec<(&'static str, u64)> {
         // genuine_tamper: 8 sample datagrams x (every bit of the first 360 bytes + every truncation up to 360)
